@@ -275,7 +275,11 @@ func (r *router) Group(routePath string, fn func(), handlers ...Handler) {
 func (r *router) Get(routePath string, handlers ...Handler) *Route {
 	route := r.Route(http.MethodGet, routePath, handlers)
 	if r.autoHead {
-		r.Head(routePath, handlers...)
+		// The HEAD route registered on behalf of the GET route is part of the route
+		// that is returned, so that Headers applies to it as well.
+		for method, leaf := range r.Head(routePath, handlers...).leaves {
+			route.leaves[method] = leaf
+		}
 	}
 	return route
 }
